@@ -70,6 +70,13 @@ def run(ctx):
         if e["ev"] == "idle" and e.get("checkerr") and e.get("checkok"):
             ctx.violation("C16", "agent-idle:check-fails", "Check() fails at an idle point although an administrator exists: %s" % e["checkerr"])
     ctx.coverage["traces_validated_against_impl"] += nval
+    # the work area is empty and no user has two files after every completed operation - also when one system call fails
+    drv = fsfam.Driver(ctx)
+    bl = fsfam.baselines(ctx, drv, [c for c in fsfam.standard_cases(False) if c.op != "remove"])
+    fsfam.judge_traces(ctx, [(b["case"], b["lines"]) for b in bl], "syscalls")
+    nf, jobs, per_case = fsfam.fault_runs(ctx, drv, bl, errnos=("EIO", "ENOSPC") if not thorough else fsfam.ERRNOS)
+    fsfam.judge_traces(ctx, per_case, "faulted")
+    ctx.coverage["fault_traces_validated"] = nf
     ctx.coverage["cli_runs"] = cli_leg(ctx)
     ctx.coverage["rule"] = ("every directory-content case of DirCheck (two creation orders) against Check/List/ListFull/Init; every Store "
                             "edge for validity / single file / empty .tmp; idle points of agent histories; the built binary on invalid "
